@@ -26,11 +26,23 @@ void c19_val(const char* kind, unsigned long long bits);    /* kinds: b i0 i1 i2
 void c19_str(const char* s);
 void c19_unknown_field(void);
 
-/* the custom type used for withParameterOfType / output parameters of type: 8 bytes, compared on the first 4, printed as
-   "o:" + 8 hex digits, copied with every byte xor 0x5a (so that a plain memcpy or memcmp would be visible) */
-int c19_obj_equal(const void* a, const void* b);
-const char* c19_obj_to_string(const void* a);
-void c19_obj_copy(void* dst, const void* src);
+/* custom types used for withParameterOfType / output parameters of type: an object is 8 bytes.  A scenario installs comparators and
+   copiers for several type names and takes their functions, by index, from this pool -- so that two types can share one function
+   and differ in another (one generic equality function with a to-string function per type, one copier for all types, ...):
+     equality   0: the first 4 bytes are equal                1: the last 4 bytes are equal   (neither implies the other)
+     to-string  0: "o:" + 8 hex digits (bytes 0..3)           1: "Point(x=<byte 3>, y=<byte 7>)"     2: "Size(<byte 3> x <byte 7>)"
+     copier     0: every byte xor 0x5a                         1: the bytes in reverse order, each + 1
+   (so that a plain memcmp / memcpy, or the function of another type, would be visible).  C: the functions themselves;
+   C++ (C19.cpp): one MockNamedValueComparator object per (equality, to-string) pair, one MockNamedValueCopier object per copier. */
+#define C19_NEQ 2
+#define C19_NSTR 3
+#define C19_NCOPY 2
+typedef int (*c19_eq_fn)(const void* a, const void* b);
+typedef const char* (*c19_str_fn)(const void* a);
+typedef void (*c19_copy_fn)(void* dst, const void* src);
+extern const c19_eq_fn c19_eq_pool[C19_NEQ];
+extern const c19_str_fn c19_str_pool[C19_NSTR];
+extern const c19_copy_fn c19_copy_pool[C19_NCOPY];
 
 void c19_c_body(void);            /* the C interpreter, in C19_c.c */
 #ifdef __cplusplus
